@@ -353,7 +353,10 @@ bloc::Value * CSVPlugin::executeMethod(
     {
       // copy last incomplete value
       size_t last = c.size() - 1;
-      data.push_back(*(c.at(last).literal()));
+      if (c.at(last).isNull())
+        data.push_back(std::string());
+      else
+        data.push_back(*(c.at(last).literal()));
       // pop it
       c.erase(c.begin() + last);
     }
